@@ -45,6 +45,10 @@ type CfgCore struct {
 	MM                             map[string][]string       // slices inside a map
 	MA                             map[string]map[string]int // maps inside a map; a source may place one inner map under several keys
 	Pairs                          [][2]*int                 // arrays (holding pointers) inside a slice
+	Arr                            [2]string                 // an array leaf
+	When                           time.Time                 // a struct that unmarshals from text
+	Peers                          []Nested                  // structs (holding a pointer) inside a slice
+	PM                             map[string]*Nested        // pointers to structs inside a map
 	Nest                           Nested
 	PN                             *Nested
 	Emb
@@ -80,6 +84,36 @@ func (c *CfgCore) stamps() [4]uint64 { return [4]uint64{c.StampA, c.StampB, c.St
 
 var stampNames = [4]string{"StampA", "StampB", "StampC", "StampD"}
 
+type PeerSpec struct {
+	S string `json:"s"`
+	X int    `json:"x"`
+}
+
+func buildPeers(spec []PeerSpec) []Nested {
+	out := make([]Nested, len(spec))
+	for i, p := range spec {
+		x := p.X
+		out[i] = Nested{S: p.S, N: i, X: &x}
+	}
+	return out
+}
+
+func buildPM(spec map[string]string) map[string]*Nested {
+	out := map[string]*Nested{}
+	for k, v := range spec {
+		out[k] = &Nested{S: v}
+	}
+	return out
+}
+
+func mustTime(s string) time.Time {
+	t, err := time.Parse(time.RFC3339, s)
+	if err != nil {
+		panic(err)
+	}
+	return t
+}
+
 // Part is a partial config: what one layer sets. nil / absent means unset.
 // It is plain data so that scenarios can be written to replay files.
 type Part struct {
@@ -97,6 +131,10 @@ type Part struct {
 	MM        map[string][]string `json:"mm,omitempty"`
 	MA        map[string]int      `json:"ma,omitempty"` // key -> inner map number; equal numbers are one and the same map object
 	Pairs     [][2]int            `json:"pairs,omitempty"`
+	Arr       []string            `json:"arr,omitempty"`  // two elements
+	When      *string             `json:"when,omitempty"` // RFC 3339
+	Peers     []PeerSpec          `json:"peers,omitempty"`
+	PM        map[string]string   `json:"pm,omitempty"` // key -> Nested.S
 	NestS     *string             `json:"nest_s,omitempty"`
 	NestN     *int                `json:"nest_n,omitempty"`
 	NestX     *int                `json:"nest_x,omitempty"`
@@ -251,6 +289,18 @@ func fillValue(e reflect.Value, p *Part, owner int) {
 	if p.Pairs != nil {
 		fld("Pairs").Set(reflect.ValueOf(buildPairs(p.Pairs)))
 	}
+	if len(p.Arr) == 2 {
+		setPtr(fld("Arr"), [2]string{p.Arr[0], p.Arr[1]})
+	}
+	if p.When != nil {
+		setPtr(fld("When"), mustTime(*p.When))
+	}
+	if p.Peers != nil {
+		fld("Peers").Set(reflect.ValueOf(buildPeers(p.Peers)))
+	}
+	if p.PM != nil {
+		fld("PM").Set(reflect.ValueOf(buildPM(p.PM)))
+	}
 	if p.NestS != nil || p.NestN != nil || p.NestX != nil {
 		f := fld("Nest")
 		n := reflect.New(f.Type().Elem())
@@ -360,6 +410,18 @@ func defaultsFrom(p *Part) *CfgCore {
 	}
 	if p.Pairs != nil {
 		c.Pairs = buildPairs(p.Pairs)
+	}
+	if len(p.Arr) == 2 {
+		c.Arr = [2]string{p.Arr[0], p.Arr[1]}
+	}
+	if p.When != nil {
+		c.When = mustTime(*p.When)
+	}
+	if p.Peers != nil {
+		c.Peers = buildPeers(p.Peers)
+	}
+	if p.PM != nil {
+		c.PM = buildPM(p.PM)
 	}
 	if p.NestS != nil {
 		c.Nest.S = *p.NestS
@@ -619,6 +681,15 @@ func overlap(a, b []region) (region, region, bool) {
 // was reported earlier) carry exactly the content of nu, writing through the
 // pointers, maps and slices old already holds wherever it can: what a source
 // does that decodes every new document into one long-lived struct.
+func allExported(t reflect.Type) bool {
+	for i := 0; i < t.NumField(); i++ {
+		if !t.Field(i).IsExported() {
+			return false
+		}
+	}
+	return true
+}
+
 func mergeInPlace(old, nu reflect.Value) {
 	if old.Kind() == reflect.Ptr {
 		old, nu = old.Elem(), nu.Elem()
@@ -632,7 +703,7 @@ func mergeInPlace(old, nu reflect.Value) {
 				of.Set(reflect.Zero(of.Type()))
 			case of.IsNil():
 				of.Set(nf)
-			case of.Type().Elem().Kind() == reflect.Struct:
+			case of.Type().Elem().Kind() == reflect.Struct && allExported(of.Type().Elem()):
 				mergeInPlace(of.Elem(), nf.Elem())
 			default:
 				of.Elem().Set(nf.Elem())
